@@ -780,7 +780,7 @@ def run(tier):
         if stats["accepted"] < len(cases) // 3:
             raise Machinery(f"only {stats['accepted']} of {len(cases)} cases produced an accepted export")
         need = {"ContainerHeader", "ImageEntry", "SignatureBlock", "SrkTable", "VerifySignature", "Blob", "ContainerEnd", "Accept", "SpsdkRoundTrip",
-                "ExportRefused", "InvalidExported", "Resume", "Tamper", "SpsdkTamperVerdict"}
+                "ExportRefused", "Resume", "Tamper", "SpsdkTamperVerdict"}  # InvalidExported fires only if SPSDK exports a container the ROM must refuse
         vac = need - stats.get("consumed_events", set())
         if vac:
             raise Machinery(f"actions of AhabRomTrace that no accepted trace exercised: {sorted(vac)}")
